@@ -22,12 +22,46 @@ def _module(relpath):
         raise TableError(f"cannot parse {p}: {exc}") from exc
 
 
-def _const_eval(node):
-    """Evaluate a constant expression (numbers, strings, tuples, lists, dicts, arithmetic)."""
+_SAFE_CALLS = {"frozenset": frozenset, "set": set, "tuple": tuple, "list": list, "sorted": sorted, "range": range}
+
+
+def _const_eval(node, tree=None, depth=0):
+    """Evaluate a constant expression: numbers, strings, tuples, lists, sets, dicts, arithmetic, calls of
+    frozenset/set/tuple/list/sorted/range on constants and (when `tree` is given) names bound once at module
+    level to such an expression - so that a harmless `X = frozenset((0, 1, 2))` ... `in X` is still read."""
+    if depth > 8:
+        raise TableError("constant definition chain too deep")
+
+    class Resolve(ast.NodeTransformer):
+        def visit_Name(self, n):
+            if n.id in _SAFE_CALLS:
+                return n
+            if tree is None:
+                raise TableError("non-literal constant: " + ast.dump(node)[:200])
+            return ast.Constant(_const_eval(_assign_value(tree, n.id), tree, depth + 1))
+
+    import copy
+    node = Resolve().visit(copy.deepcopy(node))
+    ast.fix_missing_locations(node)
     for sub in ast.walk(node):
-        if isinstance(sub, (ast.Call, ast.Name, ast.Attribute, ast.Lambda, ast.Subscript)):
+        if isinstance(sub, ast.Call):
+            if not (isinstance(sub.func, ast.Name) and sub.func.id in _SAFE_CALLS and not sub.keywords):
+                raise TableError("non-literal constant: " + ast.dump(node)[:200])
+        elif isinstance(sub, (ast.Attribute, ast.Lambda, ast.Subscript)):
             raise TableError("non-literal constant: " + ast.dump(node)[:200])
-    return eval(compile(ast.Expression(node), "<const>", "eval"), {"__builtins__": {}}, {})
+    # ast.Constant cannot hold sets: evaluate bottom-up with the resolved values in a namespace instead
+    consts = {}
+
+    class Lift(ast.NodeTransformer):
+        def visit_Constant(self, n):
+            if isinstance(n.value, (frozenset, set, tuple, list, dict)):
+                k = f"_c{len(consts)}"
+                consts[k] = n.value
+                return ast.copy_location(ast.Name(id=k, ctx=ast.Load()), n)
+            return n
+    node = Lift().visit(node)
+    ast.fix_missing_locations(node)
+    return eval(compile(ast.Expression(node), "<const>", "eval"), {"__builtins__": {}}, dict(_SAFE_CALLS, **consts))
 
 
 def _assign_value(tree, name):
@@ -90,7 +124,9 @@ def extract():
     bits_enc = None
     for node in ast.walk(f):
         if isinstance(node, ast.For):
-            bits_enc = _const_eval(node.iter)
+            bits_enc = _const_eval(node.iter, cseg)
+    if isinstance(bits_enc, (set, frozenset, list, range)):
+        bits_enc = tuple(sorted(bits_enc)) if isinstance(bits_enc, (set, frozenset)) else tuple(bits_enc)
     if not (isinstance(bits_enc, tuple) and all(isinstance(b, int) and b >= 0 for b in bits_enc)):
         raise TableError("number_of_encoding_bits: bit-width tuple not found")
     defs["csegBitsEnc"] = "def csegBitsEnc : List Nat := " + lean_list(map(str, bits_enc))
@@ -100,7 +136,9 @@ def extract():
         if (isinstance(node, ast.Compare) and len(node.ops) == 1
                 and isinstance(node.ops[0], ast.NotIn)
                 and isinstance(node.left, ast.Name) and node.left.id == "bits"):
-            bits_dec = _const_eval(node.comparators[0])
+            bits_dec = _const_eval(node.comparators[0], cseg)
+    if isinstance(bits_dec, (set, frozenset, list, range)):
+        bits_dec = tuple(sorted(bits_dec))
     if not (isinstance(bits_dec, tuple) and all(isinstance(b, int) and b >= 0 for b in bits_dec)):
         raise TableError("_decode_channel_into: accepted bit widths not found")
     defs["csegBitsDec"] = "def csegBitsDec : List Nat := " + lean_list(map(str, bits_dec))
